@@ -335,7 +335,15 @@ func TestC02History(t *testing.T) {
 	rec := kit.NewRecorder(t, "C02")
 	opt := historyOptMixed(w, maxSteps())
 	rapid.Check(t, func(rt *rapid.T) {
-		c := caseHistory{History: kit.GenHistory(rt, opt)}
+		var c caseHistory
+		if kit.Chance(rt, "huge", 12) {
+			// the 2^256-1-supply denom crossing one route repeatedly (funds re-escrowed in
+			// between): statistics reach their 256-bit bound, conservation must still hold
+			c.History = genHugeHistory(rt, w)
+			rec.Label("history", "huge amounts on one route")
+		} else {
+			c.History = kit.GenHistory(rt, opt)
+		}
 		rec.Eval()
 		if err := runC02(w, c, rec); err != nil {
 			rec.Fail(rt, c, "%v", err)
